@@ -193,17 +193,38 @@ pub fn resolve(sub: &Sub, r: usize, c: usize, store: &MStore) -> Result<Vec<usiz
   }
 }
 
-/// Index form with a cardinality mark: list-like forms that select exactly one position are
-/// spelled V1/R1/RX1/X1/M1 — Mech dispatches those to other kernels than the multi-element forms.
+/// Storage class of an r×c matrix: Mech keeps small shapes in fixed-size nalgebra types and the
+/// rest in dynamic ones, and every (kind, storage class, …) combination has its own generated kernel
+/// (or none), so the supported-combination baseline is keyed by it.
+pub fn shape_class(r: usize, c: usize) -> String {
+  match (r, c) {
+    (1, 1) => "m1".into(),
+    (1, n) if n <= 4 => format!("r{}", n), (1, _) => "rd".into(),
+    (n, 1) if n <= 4 => format!("v{}", n), (_, 1) => "vd".into(),
+    (2, 2) => "m2".into(), (3, 3) => "m3".into(), (4, 4) => "m4".into(), (2, 3) => "m2x3".into(), (3, 2) => "m3x2".into(),
+    _ => "md".into(),
+  }
+}
+fn len_class(n: usize) -> String { if n <= 4 { n.to_string() } else { "n".into() } }
+
+/// Index form with a length class: the evaluated index is itself a vector whose storage class
+/// depends on its length (1, 2, 3, 4, more), and masks on the length of the mask.
 pub fn form_card(sub: &Sub, r: usize, c: usize, s: &MStore) -> String {
   let one = |ix: &Ix, n: usize| -> String {
     let base = ix.form().to_string();
     match ix {
       Ix::S(_) | Ix::All => base,
-      _ => match resolve(&Sub::One(ix.clone()), n, 1, s) { Ok(p) if p.len() == 1 => format!("{}1", base), _ => base },
+      Ix::M(m) => format!("{}{}", base, len_class(m.len())),
+      Ix::Var(y) => match s.get(y).map(|b| &b.v) {
+        Some(SV::Mat(k, _, _, d)) if k == "bool" => format!("{}m{}", base, len_class(d.len())),
+        Some(SV::Mat(_, _, _, d)) => format!("{}{}", base, len_class(d.len())),
+        _ => format!("{}s", base),
+      },
+      _ => match resolve(&Sub::One(ix.clone()), n, 1, s) { Ok(p) => format!("{}{}", base, len_class(p.len())), _ => base },
     }
   };
-  match sub { Sub::One(a) => one(a, r * c), Sub::Two(a, b) => format!("{},{}", one(a, r), one(b, c)) }
+  let shape = shape_class(r, c);
+  match sub { Sub::One(a) => format!("{}:{}", shape, one(a, r * c)), Sub::Two(a, b) => format!("{}:{},{}", shape, one(a, r), one(b, c)) }
 }
 
 pub fn eval(e: &Expr, s: &MStore) -> Ev {
@@ -256,7 +277,7 @@ pub fn eval(e: &Expr, s: &MStore) -> Ev {
 
 fn class_of(v: &SV) -> String {
   match v {
-    SV::Mat(ek, ..) => format!("mat:{}", ek),
+    SV::Mat(ek, r, c, _) => format!("mat:{}:{}", ek, shape_class(*r, *c)),
     SV::Record(_) => "record".into(),
     SV::Table(..) => "table".into(),
     SV::Tuple(_) => "tuple".into(),
@@ -267,7 +288,7 @@ fn class_of(v: &SV) -> String {
 }
 fn src_form(v: &SV) -> String {
   match v {
-    SV::Mat(ek, r, c, _) => if *r == 1 || *c == 1 { format!("vec:{}", ek) } else { format!("mat:{}", ek) },
+    SV::Mat(ek, r, c, _) => format!("{}:{}", shape_class(*r, *c), ek),
     x => class_of(x),
   }
 }
